@@ -22,7 +22,7 @@ def plan(tier, seed, kf_ids):
     for c in ([one - 128, (1 << 32) - 256] if q else [0, one - 128, (1 << 32) - 256, 1 << 20, 1 << 30]):
         jobs.append(acc.sqrt_job("c13", "U9F23", "U9F23", c, 8, c > (1 << (F - 8)) + 512, 30))
     # 64-bit type: single operands and 2^2-neighbourhoods (the 32 dependent 128-bit divisions only fold for (nearly) concrete operands)
-    for x, k in ((1e9, 0), (7.5e7, 2), (2.0 ** 30, 0), (3.0, 2), (2.0 ** -20, 0)) if q else ((1e9, 0), (1e9, 2), (7.5e7, 2), (2.0 ** 30, 0), (2.0 ** 31 - 1, 0), (3.0, 2), (2.0 ** -20, 0), (1e-9, 0), (12345.678, 2)):
+    for x, k in ((1e9, 0), (7.5e7, 2), (3.0, 2)) if q else ((1e9, 0), (1e9, 2), (7.5e7, 2), (2.0 ** 30, 0), (2.0 ** 31 - 1, 0), (3.0, 2), (2.0 ** -20, 0), (1e-9, 0), (12345.678, 2)):
         jobs.append(acc.sqrt_job("c13", "I32F32", "I32F32", int(x * (1 << 32)), k, True, 40, timeout=1800))
     for kf in kf_ids:
         if kf == "c13_sqrt_wide_int":
